@@ -303,7 +303,7 @@ async fn emit_output(
     };
     let (preview, _truncated, _used) =
         super::logs::truncate_utf8(chunk, max_bytes.min(super::OUTPUT_EVENT_MAX_BYTES));
-    if preview.is_empty() {
+    if preview.is_empty() && artifacts.is_none() {
         return;
     }
     emitter
